@@ -64,6 +64,9 @@ def gen(tier, seed):
         if rng.random() < 0.3:
             t = "A(%s) I(%s) Cac{%s}" % (tg.word(), tg.word(), ' '.join(p for p in parts if not p.startswith(('A(', 'I('))) + " A(x) I(y)")
         texts.append(("remark", t))
+    # several combination groups side by side inside one component (link maps with several keys per column)
+    for _ in range(30 if q else 400):
+        texts.append(("groups", TX.r_stmt(TX.groups_stmt(tg, rng))))
     # conversion time grows steeply with the length of the statement; order dependence does not need long ones
     return [(k, t) for k, t in texts if len(t) <= (260 if q else 600)]
 
